@@ -57,3 +57,19 @@ func TestKnownFinding_F10(t *testing.T) {
 		}
 	}
 }
+
+// F9 (C11): an empty (or "-") xsd:duration made DeserializeDuration index s[0] on an empty string:
+// streams.ToType panicked on hostile input such as {"type":"Note","duration":""}.
+func TestKnownFinding_F9(t *testing.T) {
+	for _, d := range []string{"", "-"} {
+		func() {
+			defer func() {
+				if r := recover(); r != nil {
+					t.Fatalf("ToType panicked on duration %q: %v", d, r)
+				}
+			}()
+			m := map[string]interface{}{"@context": "https://www.w3.org/ns/activitystreams", "type": "Note", "id": "https://example.com/n", "duration": d}
+			ToType(context.Background(), m)
+		}()
+	}
+}
